@@ -691,7 +691,7 @@ pub fn emit_unit(db: &Db, contracts: &serde_json::Value, unit: &str) -> UnitOut 
                         "mname": format!("{}#{}", f.mname, suffix), "self_ref": f.self_ref, "rhs": format!("{:?}", f.rhs),
                         "src_line": f.line, "src_end_line": f.end_line, "gen_line": vstart, "gen_end_line": vend,
                         "params": [], "outs": [], "requires": vreqs, "mutates_self": false, "from_default": f.from_default, "rewrites": {},
-                        "props": v["props"].clone(), "what": v["what"].clone(),
+                        "props": v["props"].clone(), "what": v["what"].clone(), "hinted": !hint.is_empty(),
                     }));
                 }
             }
@@ -715,6 +715,7 @@ pub fn emit_unit(db: &Db, contracts: &serde_json::Value, unit: &str) -> UnitOut 
             "outs": m_opt.map(|m| m.outs.iter().map(|(p,_,t)| json!([p,t])).collect::<Vec<_>>()).unwrap_or_default(),
             "requires": reqs,
             "manual": manual_mode,
+            "hinted": !hint.is_empty(),
             "mutates_self": m_opt.map(|m| m.mutates_self).unwrap_or(false),
             "from_default": f.from_default,
             "rewrites": rw.counts,
